@@ -28,7 +28,8 @@ def parse(rel):
     try:
         with warnings.catch_warnings():
             warnings.simplefilter("ignore")          # "\D" in a non-raw literal
-            return ast.parse(open(os.path.join(PY, rel)).read())
+            import reconcile, translate_py
+            return reconcile.reconcile(rel, ast.parse(open(os.path.join(PY, rel)).read()), translate_py.RECONCILED)
     except (OSError, SyntaxError) as e:
         fail("cannot parse %s: %s" % (rel, e))
 
